@@ -234,11 +234,15 @@ def concurrent_callers(ctx, rec, S, gal_tools, rounds):
             f = make(m)                                   # the one sampler object every caller uses
             plan = []
             for r in range(rounds):
-                h, w = int(nprng.integers(48, 129)), int(nprng.integers(48, 129))
-                kind = ("the same shape for every caller", "a different shape for every caller", "two shapes, each used by two callers")[r % 3]
-                if r % 3 == 0:
+                # mostly requests of 10^4 points (numpy drops the interpreter lock inside its loops: the calls really run side by
+                # side), some of 10^3 (the callers alternate every few bytecodes)
+                lo_, hi_ = (96, 161) if nprng.random() < 0.75 else (24, 65)
+                h, w = int(nprng.integers(lo_, hi_)), int(nprng.integers(lo_, hi_))
+                kind = ("the same shape for every caller", "a different shape for every caller", "the same shape for every caller",
+                        "two shapes, each used by two callers")[r % 4]
+                if r % 4 in (0, 2):
                     shapes = [(h, w)] * T
-                elif r % 3 == 1:
+                elif r % 4 == 1:
                     shapes = [(h + t, w) for t in range(T)]
                 else:
                     shapes = [(h, w) if t % 2 == 0 else (w + 1, h) for t in range(T)]
@@ -665,7 +669,7 @@ def replay_table(ctx, rec, S, gal_tools):
         if not judge_out(name, "scalar", lambda: f(a0, b0), a0, b0, cand, (), dec_scalar):
             return
         LONc, LATc = np.meshgrid(lon_c, lat_c)
-        for dt in REQUEST_DTYPES:
+        for dt in (REQUEST_DTYPES[:2] if ctx.quick else REQUEST_DTYPES):
             ra_d, de_d = ra.astype(dt), de.astype(dt)
             back = SkyCoord(ra=ra_d.astype(float) * u.rad, dec=de_d.astype(float) * u.rad, frame="icrs").galactic    # trusted, float64
             dl = (back.l.rad - LONc + math.pi) % (2 * math.pi) - math.pi
@@ -792,9 +796,10 @@ def run(ctx):
         if recs and recs[0]["mode"] != "edge":
             for v in LAYOUTS:
                 mine = sorted((r for r in recs if r["v"] == v and len(r["ks"]) * len(r["js"]) >= 16), key=lambda r: (r["nx"] * r["ny"], r["nx"]))
-                extra = (1 if recs[0]["mode"] == "full" else 0) if ctx.quick else 4
-                for rec in mine[-1:] + [mine[ctx.rng.randrange(len(mine))] for _ in range(extra if mine else 0)]:
-                    ctx.count(concurrent_callers(ctx, rec, S, gal_tools, 9 if ctx.quick else 30))
+                picked = ([mine[ctx.rng.randrange(len(mine))]] if ctx.quick and recs[0]["mode"] == "grid" else mine[-1:]) if mine else []
+                picked += [mine[ctx.rng.randrange(len(mine))] for _ in range(0 if ctx.quick or not mine else 4)]
+                for rec in picked:
+                    ctx.count(concurrent_callers(ctx, rec, S, gal_tools, 8 if ctx.quick else 32))
                     ctx.add_note("tables_asked_by_concurrent_callers", 1)
         for rec in recs:
             n = replay_table(ctx, rec, S, gal_tools)
